@@ -100,7 +100,7 @@ pub static INFO: PropInfo = PropInfo {
 };
 
 pub fn run(ctx: &Ctx, out: &mut Outcome) {
-    super::run_loop(ctx, out, 1600, 40_000, 11, one_run);
+    super::run_loop(ctx, out, 3200, 40_000, 11, one_run);
 }
 
 const F_BCAST: u8 = 1;
